@@ -120,6 +120,10 @@ def to_py(t):
     if "pos" in t:
         from lsprotocol import types
         return types.Position(line=t["pos"][0], character=t["pos"][1])
+    if "pt" in t:
+        return _conv_classes()[0](t["pt"][0], t["pt"][1])
+    if "color" in t:
+        return _conv_classes()[1](t["color"])
     if "bad" in t:
         if t["bad"] == 1:
             x = []
@@ -159,6 +163,8 @@ def send_strings(s):
 
 
 def all_sends(c):
+    if c["k"] == "multi":
+        return [s_ for _, s_ in c["ops"]]
     if c["k"] == "session":
         return [o["send"] for o in c["ops"] if o["op"] == "send"]
     if c["k"] == "loop":
@@ -542,7 +548,129 @@ class LoopStdin:
         pass
 
 
-def make_server(flavour):
+def _conv_classes():
+    """a small attrs class and an enum whose wire form depends on the endpoint's converter"""
+    global _CONV
+    try:
+        return _CONV
+    except NameError:
+        pass
+    import attrs
+
+    @attrs.define
+    class Pt:
+        x: int
+        y: int
+
+    class Color(enum.Enum):
+        RED = 1
+        GREEN = 2
+        BLUE = 3
+
+    def custom_converter():
+        from pygls.protocol import default_converter
+        cv = default_converter()
+        cv.register_unstructure_hook(Pt, lambda p_: [p_.x, p_.y])
+        cv.register_unstructure_hook(Color, lambda c_: c_.name)
+        return cv
+    _CONV = (Pt, Color, custom_converter)
+    return _CONV
+
+
+COLORS = ["RED", "GREEN", "BLUE"]
+
+
+def plain_tree(t, conv):
+    """the tree THIS endpoint's serialiser yields for a payload: {"pt": [x, y]} is {"x":..,"y":..} under the
+    default converter and [x, y] under the custom one; {"color": k} is its value / its name"""
+    if isinstance(t, list):
+        return [plain_tree(x, conv) for x in t]
+    if isinstance(t, dict):
+        if "pt" in t:
+            x, y = t["pt"]
+            return [x, y] if conv == "custom" else {"o": [[S("x")["s"], x], [S("y")["s"], y]]}
+        if "color" in t:
+            return S(COLORS[t["color"] - 1]) if conv == "custom" else t["color"]
+        if "o" in t:
+            return {"o": [[k, plain_tree(v, conv)] for k, v in t["o"]]}
+    return t
+
+
+def plain_send(s_, conv):
+    d = dict(s_)
+    for f in ("result", "params", "data"):
+        if f in d:
+            d[f] = plain_tree(d[f], conv)
+    return d
+
+
+_HELPER = None
+
+
+def _multi_helper_call(c):
+    """one case -> the forking helper -> observation"""
+    global _HELPER
+    import atexit, select, subprocess, sys
+    if _HELPER is None or _HELPER.poll() is not None:
+        env = dict(os.environ, PYTHONPATH=core.REPO + os.pathsep + os.path.dirname(os.path.abspath(__file__)),
+                   PYTHONHASHSEED="0")
+        _HELPER = subprocess.Popen([core.PY, "-u", os.path.abspath(__file__), "--multi-helper"], env=env,
+                                   stdin=subprocess.PIPE, stdout=subprocess.PIPE, text=True, bufsize=1)
+        atexit.register(lambda h=_HELPER: h.poll() is None and h.kill())
+    _HELPER.stdin.write(json.dumps(c) + "\n")
+    _HELPER.stdin.flush()
+    r, _, _ = select.select([_HELPER.stdout], [], [], 3 * TMO)
+    if not r:
+        _HELPER.kill()
+        raise TimeoutError("multi helper")
+    line = _HELPER.stdout.readline()
+    if not line:
+        raise RuntimeError("multi helper died")
+    res = json.loads(line)
+    if isinstance(res, dict) and "raise" in res:
+        return ["raise", res["raise"]]
+    return res
+
+
+def _multi_helper_main():
+    """stdin: one case per line; each is run in a forked child; stdout: one observation per line"""
+    import sys
+    logging.disable(logging.CRITICAL)
+    import pygls.server, pygls.lsp.server, pygls.protocol   # noqa: imported, nothing is ever sent here
+    for line in sys.stdin:
+        c = json.loads(line)
+        rd, wr = os.pipe()
+        pid = os.fork()
+        if pid == 0:
+            os.close(rd)
+            try:
+                out = json.dumps(C03.run_multi_here(c))
+            except BaseException as ex:     # noqa
+                out = json.dumps({"raise": type(ex).__name__})
+            with os.fdopen(wr, "w") as f:
+                f.write(out)
+            os._exit(0)
+        os.close(wr)
+        with os.fdopen(rd) as f:
+            data = f.read()
+        os.waitpid(pid, 0)
+        sys.stdout.write((data or json.dumps({"raise": "ChildDied"})) + "\n")
+        sys.stdout.flush()
+
+
+def make_server(flavour, conv="default"):
+    if conv == "custom":
+        factory = _conv_classes()[2]
+        if flavour == "lsp":
+            from pygls.lsp.server import LanguageServer
+            return LanguageServer("c03", "v1", converter_factory=factory)
+        from pygls.server import JsonRPCServer
+        from pygls.protocol import JsonRPCProtocol
+        return JsonRPCServer(JsonRPCProtocol, factory)
+    return make_server_default(flavour)
+
+
+def make_server_default(flavour):
     if flavour == "lsp":
         from pygls.lsp.server import LanguageServer
         return LanguageServer("c03", "v1")
@@ -596,8 +724,8 @@ class C03(core.Property):
                     "modelled not verified: json.dumps (default separators, ensure_ascii), str.encode, f-string of int, "
                     "cattrs unstructure of the four generic message classes (layout reproduced, tied on every run)",
                     "assumed: one transport write call is atomic (BufferedWriter holds its lock for the whole call)",
-                    priv.trusted(["protocol.send_response", "protocol.send_data", "server.error_handler"])]
-    private = ["protocol.send_response", "protocol.send_data", "server.error_handler"]
+                    priv.trusted(["protocol.send_response", "protocol.send_data", "server.error_handler", "server.start_io_sync"])]
+    private = ["protocol.send_response", "protocol.send_data", "server.error_handler", "server.start_io_sync"]
     assumptions = ["payloads are JSON trees with str keys and int/str/bool/None leaves (floats excluded)",
                    "a Python str is a list of code points 0..0x10FFFF; strings with a high surrogate immediately "
                    "followed by a low surrogate are outside (JSON cannot carry them)",
@@ -800,7 +928,7 @@ class C03(core.Property):
                           "params": {"o": [[S("msg")["s"], i], [S("seq")["s"], k]]}}
         out = []
         for fl in ("rpc", "lsp"):
-            for loop in ("async", "sync"):
+            for loop in ("async", "sync", "sync_entry", "wasm"):
                 out.append({"k": "loop", "fl": fl, "loop": loop, "msgs": [
                     {"kind": "sync", "sends": [n(0, 0), r(0, 1)], "result": S("s")},
                     {"kind": "nsync", "sends": [n(1, 0)], "result": None},
@@ -817,7 +945,7 @@ class C03(core.Property):
         return out
 
     def rloop(self, rng):
-        loop = rng.choice(["async", "async", "sync"])
+        loop = rng.choice(["async", "async", "sync", "sync_entry", "wasm"])
         kinds = ["sync", "nsync", "sync"] + (["async", "thread"] if loop == "async" else [])
         msgs = []
         for i in range(rng.randint(1, 4)):
@@ -828,6 +956,48 @@ class C03(core.Property):
             i = len(msgs)
             msgs.append({"kind": "hold", "sends": [self.hsend(rng, i, 0)], "result": S("held")})
         return {"k": "loop", "fl": rng.choice(["rpc", "lsp"]), "loop": loop, "msgs": msgs}
+
+    def multi_scenarios(self):
+        """two (three) endpoints in one process whose converters render the same payload classes
+        differently; who sends first varies"""
+        pay = lambda q: {"o": [[S("p")["s"], {"pt": [q, q + 1]}], [S("c")["s"], {"color": 1 + q % 3}], [S("l")["s"], [{"pt": [0, q]}]]]}
+        n = lambda q: {"t": "notif", "method": S("m/n")["s"], "params": pay(q)}
+        r = lambda q: {"t": "resp", "id": q, "result": {"pt": [q, 7]}}
+        rq = lambda q: {"t": "req", "id": S("q%d" % q), "method": S("m/r")["s"], "params": {"color": 2}}
+        out = []
+        for fa, fb in (("rpc", "rpc"), ("lsp", "lsp"), ("rpc", "lsp")):
+            for ca, cb in (("default", "custom"), ("custom", "default")):
+                eps = [{"fl": fa, "conv": ca}, {"fl": fb, "conv": cb}]
+                out.append({"k": "multi", "eps": eps, "ops": [[0, n(1)], [1, n(2)], [1, r(4)], [0, r(6)], [1, rq(1)], [0, rq(3)]]})
+                out.append({"k": "multi", "eps": eps, "ops": [[1, r(2)], [0, n(3)]]})
+        out.append({"k": "multi", "eps": [{"fl": "rpc", "conv": "default"}, {"fl": "rpc", "conv": "custom"}, {"fl": "lsp", "conv": "default"}],
+                    "ops": [[0, n(1)], [1, n(1)], [2, n(1)], [1, r(2)], [2, r(2)], [0, r(2)]]})
+        return out
+
+    def rmulti(self, rng):
+        eps = [{"fl": rng.choice(["rpc", "lsp"]), "conv": cv} for cv in rng.sample(["default", "custom", rng.choice(["default", "custom"])], rng.choice([2, 3]))]
+        def tree(d):
+            k = rng.randint(0, 5)
+            if k == 0:
+                return {"pt": [rng.randint(-5, 99), rng.randint(0, 10 ** 6)]}
+            if k == 1:
+                return {"color": rng.randint(1, 3)}
+            if k == 2 and d > 0:
+                return [tree(d - 1) for _ in range(rng.randint(0, 3))]
+            if k == 3 and d > 0:
+                return {"o": [[S("k%d" % j)["s"], tree(d - 1)] for j in range(rng.randint(0, 3))]}
+            return rng.choice([None, 1, S("é")])
+        ops = []
+        for q in range(rng.randint(2, 6)):
+            i = rng.randrange(len(eps))
+            kind = rng.choice(["notif", "resp", "req"])
+            if kind == "notif":
+                ops.append([i, {"t": "notif", "method": S("m/n")["s"], "params": tree(2)}])
+            elif kind == "resp":
+                ops.append([i, {"t": "resp", "id": 2 * q, "result": tree(2)}])
+            else:
+                ops.append([i, {"t": "req", "id": S("q%d" % q), "method": S("m/r")["s"], "params": tree(2)}])
+        return {"k": "multi", "eps": eps, "ops": ops}
 
     def session_scenarios(self):
         n = lambda m, v: {"op": "send", "send": {"t": "notif", "method": S(m)["s"], "params": {"o": [[S("v")["s"], v]]}}}
@@ -909,6 +1079,10 @@ class C03(core.Property):
         cases.extend(self.big_scheds())
         for _ in range(chk.n(40, 1500)):
             cases.append(self.rsched(rng))
+        # several endpoints with different converters in one process
+        cases.extend(self.multi_scenarios())
+        for _ in range(chk.n(24, 800)):
+            cases.append(self.rmulti(rng))
         # the transport installed late / replaced
         cases.extend(self.session_scenarios())
         for _ in range(chk.n(80, 1500)):
@@ -929,6 +1103,7 @@ class C03(core.Property):
             try:
                 out.append(self.run_case(c) if c["k"] == "case" else self.run_sched(c) if c["k"] == "sched"
                            else self.run_loop(c) if c["k"] == "loop" else self.run_session(c) if c["k"] == "session"
+                           else self.run_multi(c) if c["k"] == "multi"
                            else self.run_other(chk, c))
             except Exception as ex:
                 out.append(["raise", type(ex).__name__])
@@ -939,6 +1114,9 @@ class C03(core.Property):
         k = c["k"]
         if k == "pipe-stress":
             v = self.pipe_stress(chk, {})
+            return v[0]["impl"] if v else "ok"
+        if k in ("client-start-io", "start-tcp-entry"):
+            v = [r for r in self.nonblocking_entries(chk, {}) if r["case"]["k"] == k]
             return v[0]["impl"] if v else "ok"
         if k == "tcp-thread-stress":
             v = self.tcp_stress(chk, {})
@@ -993,6 +1171,26 @@ class C03(core.Property):
                 perform(p, s)
                 per.append(log[k:])
         return {"sends": per}
+
+    def run_multi(self, c):
+        """Several protocol instances in ONE process, each with its own converter and its own writer;
+        sends in the given global order.  Observed: what each instance's writer received.
+        Every case runs in a process of its own (forked from a helper that has imported pygls but never
+        sent anything), so that what is observed depends on the case alone and a replay is a failing
+        input by itself, not an artefact of what earlier cases left behind in class-level state."""
+        return _multi_helper_call(c)
+
+    @staticmethod
+    def run_multi_here(c):
+        eps, logs = [], []
+        for e in c["eps"]:
+            p = make_server(e["fl"], e["conv"]).protocol
+            log = []
+            p.set_writer(PlainWriter(log))
+            eps.append(p); logs.append(log)
+        for i, s_ in c["ops"]:
+            perform(eps[i], s_)
+        return {"eps": logs}
 
     def run_session(self, c):
         """One protocol object from its construction on: sends before any transport exists, set_writer
@@ -1113,6 +1311,17 @@ class C03(core.Property):
         try:
             if c["loop"] == "async":
                 server.start_io(stdin, raw)
+            elif c["loop"] == "sync_entry":
+                # the entry point start_io uses under WASM: pygls itself installs the writer
+                priv.start_io_sync(server)(stdin, raw)
+            elif c["loop"] == "wasm":
+                import pygls.server as srvmod
+                saved = srvmod.IS_WASM
+                srvmod.IS_WASM = True
+                try:
+                    server.start_io(stdin, raw)
+                finally:
+                    srvmod.IS_WASM = saved
             else:
                 p.set_writer(io_.StdoutWriter(raw))
                 try:
@@ -1211,6 +1420,9 @@ class C03(core.Property):
             return "roundtrip " + tok_str(c["s"])
         if k == "loop":
             return "case 2 1 " + tok_sends(self.loop_sends(c))
+        if k == "multi":
+            per = [[plain_send(s_, e["conv"]) for i, s_ in c["ops"] if i == q] for q, e in enumerate(c["eps"])]
+            return f"sched 1 1 {len(per)} " + " ".join(tok_sends(ss) for ss in per) + " 0"
         if k == "session":
             return f"session {len(c['ops'])} " + " ".join(
                 f"0 {WR[o['w']]} {1 if o['h'] else 0}" if o["op"] == "set" else "1 " + tok_send(o["send"]) for o in c["ops"])
@@ -1235,7 +1447,7 @@ class C03(core.Property):
             return {"M": None if t[0] == "0" else hx(t[1]), "S": None, "guard": True}
         if k == "oracle-roundtrip":
             return {"M": t[1] == "1", "S": None, "guard": True}
-        if k not in ("case", "sched", "loop", "session"):
+        if k not in ("case", "sched", "loop", "session", "multi"):
             return {"M": "ok", "S": "ok", "guard": True}
         it = iter(t)
         nxt = lambda: next(it)
@@ -1271,6 +1483,15 @@ class C03(core.Property):
                 groups.append(g)
             M = {"hsends": hsends, "replies": sorted(replies), "read_pending": 0, "end_pending": 0}
             return {"M": M, "S": {"groups": groups}, "guard": True, "klass": None}
+        if c["k"] == "multi":
+            per = [[] for _ in c["eps"]]
+            for _ in range(int(nxt())):
+                i = int(nxt())
+                per[i].append(op())
+            exp = [expects() for _ in range(int(nxt()))]
+            if nxt() != "1":
+                raise RuntimeError("model self-check failed (multi)")
+            return {"M": {"eps": per}, "S": {"eps": exp} if guard else None, "guard": guard, "klass": None}
         if c["k"] == "case":
             M = {"sends": [[op() for _ in range(int(nxt()))] for _ in range(int(nxt()))]}
             exp = expects()
@@ -1310,6 +1531,17 @@ class C03(core.Property):
             return False
 
     def satisfies(self, c, impl, S):
+        if c["k"] == "multi":
+            # every instance's stream decodes to the messages IT sent, as ITS converter renders them
+            if not isinstance(impl, dict) or len(impl["eps"]) != len(S["eps"]):
+                return False
+            for ops, exp in zip(impl["eps"], S["eps"]):
+                bodies = py_decode(b"".join(bytes.fromhex(o[1]) for o in ops if o[0] == "w"))
+                if bodies is None or len(bodies) != len(exp):
+                    return False
+                if not all(self.match_expect(b, e) for b, e in zip(bodies, exp)):
+                    return False
+            return True
         if c["k"] == "session":
             if not isinstance(impl, dict) or len(impl["writers"]) != len(S["writers"]):
                 return False
@@ -1403,6 +1635,8 @@ class C03(core.Property):
         return impl == M
 
     def nontrivial(self, c):
+        if c["k"] == "multi":
+            return len({e["conv"] for e in c["eps"]}) >= 2
         if c["k"] == "session":
             first = next((i for i, o in enumerate(c["ops"]) if o["op"] == "set"), len(c["ops"]))
             return first > 0 or sum(1 for o in c["ops"] if o["op"] == "set") >= 2
@@ -1461,7 +1695,7 @@ class C03(core.Property):
             if "id" in s and s["id"] != 1:
                 d = dict(s); d["id"] = 1
                 yield d
-        if c["k"] == "session":
+        if c["k"] in ("session", "multi"):
             for i in range(len(c["ops"])):
                 d = dict(c); d["ops"] = c["ops"][:i] + c["ops"][i + 1:]
                 yield d
@@ -1517,7 +1751,7 @@ class C03(core.Property):
         bounded scope: every boundary string x the four message kinds x three writers, and every
         schedule of two concurrent senders at the granularity of one transport call (the gating
         writer: a frame emitted in more than one call is torn by one of these schedules)."""
-        cases = (self.session_scenarios() + self.loop_scenarios() + self.boundary_cases() + self.sched_scope()
+        cases = (self.multi_scenarios() + self.session_scenarios() + self.loop_scenarios() + self.boundary_cases() + self.sched_scope()
                  + self.big_scheds())
         res = core.evaluate(self, chk, cases)
         return [r for r in res if r["verdict"] == "violation"][:1]
@@ -1534,6 +1768,9 @@ class C03(core.Property):
         t0 = time.time()
         viol += self.pipe_stress(chk, cov)
         cov["pipe_stress_s"] = round(time.time() - t0, 2)
+        t0 = time.time()
+        viol += self.nonblocking_entries(chk, cov)
+        cov["nonblocking_entries_s"] = round(time.time() - t0, 2)
         if not chk.quick:
             t0 = time.time()
             viol += self.tcp_stress(chk, cov)
@@ -1774,6 +2011,112 @@ class C03(core.Property):
         cov["stress_frames_decoded"] = len(bodies)
         return []
 
+    CHILD = r"""
+import sys, json
+i, o = sys.stdin.buffer, sys.stdout.buffer
+while True:
+    n = None
+    while True:
+        line = i.readline()
+        if not line:
+            sys.exit(0)
+        if line == b"\r\n":
+            break
+        k, _, v = line.partition(b":")
+        if k.lower() == b"content-length":
+            n = int(v)
+    body = i.read(n)
+    m = json.loads(body)
+    if "id" in m and "method" in m:
+        r = json.dumps({"jsonrpc": "2.0", "id": m["id"], "result": {"cl": n, "got": len(body), "pad": len(m["params"]["pad"])}}).encode()
+        o.write(b"Content-Length: %d\r\n\r\n" % len(r) + r)
+        o.flush()
+"""
+
+    def nonblocking_entries(self, chk, cov):
+        """The writers pygls installs that are NOT blocking: the asyncio StreamWriter of start_tcp and
+        the pipe StreamWriter JsonRPCClient.start_io installs for the child's stdin.  C03's flush clause
+        speaks of blocking transports; what is promised here is weaker and is what is judged: a frame
+        handed to such a writer on the loop thread goes out WHOLE, in order, and WITHOUT needing any
+        further traffic to push it (the peer gets it while the sender sends nothing else)."""
+        import socket, sys
+        from pygls.lsp.server import LanguageServer
+        from pygls.client import JsonRPCClient
+        out = []
+        # ---- JsonRPCClient.start_io: one request, nothing else; the child answers only a complete frame
+        async def client_run():
+            cl = JsonRPCClient()
+            await cl.start_io(sys.executable, "-c", self.CHILD)
+            res = []
+            try:
+                for n in (3, 200 * 1024):
+                    pad = "\u00e9" * n
+                    fut = cl.protocol.send_request_async("x/echo", {"pad": pad})
+                    r = await asyncio.wait_for(fut, TMO)
+                    res.append([r.cl, r.got, r.pad, n])
+            finally:
+                cl.protocol.writer.close()        # EOF on the child's stdin: it exits, stop() can return
+                await asyncio.wait_for(cl.stop(), TMO)
+            return res
+        loop = asyncio.new_event_loop()
+        try:
+            res = loop.run_until_complete(asyncio.wait_for(client_run(), 3 * TMO))
+            ok = all(cl_ == got and pad == n for cl_, got, pad, n in res) and len(res) == 2
+            impl = res
+        except BaseException as ex:      # noqa
+            ok, impl = False, ["raise", type(ex).__name__]
+        finally:
+            asyncio.set_event_loop(None)
+            loop.close()
+        cov["client_stdio_requests_delivered"] = ok
+        if not ok:
+            out.append({"case": {"k": "client-start-io"}, "impl": impl, "verdict": "violation",
+                        "S": "a request sent by the client reaches the child complete, with no further traffic"})
+        # ---- start_tcp: a sync handler sends two notifications and returns; nothing else is sent
+        srv = LanguageServer("c03-tcp-entry", "v1")
+        srv.feature("t/sync")(lambda params: [srv.protocol.notify("t/progress", {"seq": k_, "pad": "\u00e9" * 2000}) for k_ in range(2)] and "done")
+        sk = socket.socket(); sk.bind(("127.0.0.1", 0)); port = sk.getsockname()[1]; sk.close()
+        th = threading.Thread(target=lambda: srv.start_tcp("127.0.0.1", port), daemon=True)
+        th.start()
+        got, impl = b"", None
+        try:
+            end = time.time() + TMO
+            while True:
+                try:
+                    cs = socket.create_connection(("127.0.0.1", port), timeout=2)
+                    break
+                except OSError:
+                    if time.time() > end:
+                        raise
+                    time.sleep(0.02)
+            cs.settimeout(TMO)
+            body = json.dumps({"jsonrpc": "2.0", "id": 1, "method": "t/sync", "params": {}}).encode()
+            cs.sendall(b"Content-Length: %d\r\n\r\n" % len(body) + body)
+            bodies = None
+            while time.time() < end:
+                b = cs.recv(1 << 16)
+                if not b:
+                    break
+                got += b
+                bodies = py_decode(got)
+                if bodies is not None and len(bodies) >= 3:
+                    break
+            cs.close()
+            kinds = []
+            for b in bodies or []:
+                t = ordered_py(py_loads(b))
+                kinds.append(["n", t["params"]["seq"]] if "method" in t else ["r", t.get("result")])
+            impl = kinds
+            ok = kinds == [["n", 0], ["n", 1], ["r", "done"]]
+        except BaseException as ex:      # noqa
+            ok, impl = False, ["raise", type(ex).__name__, got[:200].hex()]
+        th.join(5)
+        cov["tcp_entry_frames_in_order"] = ok
+        if not ok:
+            out.append({"case": {"k": "start-tcp-entry"}, "impl": impl, "verdict": "violation",
+                        "S": "whole frames, the handler's notifications before its reply, no further traffic needed"})
+        return out
+
     def tcp_stress(self, chk, cov):
         """The configuration the atomicity assumption does NOT cover: an asyncio StreamWriter (as
         start_tcp sets it) written to from pool threads with frames larger than the socket buffer
@@ -1877,9 +2220,11 @@ class C03(core.Property):
     def distribution(self, cases):
         d = {}
         for c in cases:
-            if c["k"] not in ("case", "sched", "loop", "session"):
+            if c["k"] not in ("case", "sched", "loop", "session", "multi"):
                 continue
-            if c["k"] == "session":
+            if c["k"] == "multi":
+                key = "multi/" + "+".join(e["conv"] for e in c["eps"])
+            elif c["k"] == "session":
                 key = f"session/{c['fl']}"
                 for o in c["ops"]:
                     if o["op"] == "set":
@@ -1911,3 +2256,9 @@ C03.obligations = list(C03.obligations) + ["Proofs.LinkWireEndpoint::" + n for n
     "link_stream_is_wire_model", "stream_of_decodes", "link_blocking", "link_awaitable_only_write_step",
     "link_awaitable_write_step", "link_awaitable", "link_failing_writer")] + ["C03_along_endpoint_schedules"]
 C03.coq_targets = list(C03.coq_targets) + ["Proofs/LinkWireEndpoint.vo"]
+
+
+if __name__ == "__main__":
+    import sys
+    if "--multi-helper" in sys.argv:
+        _multi_helper_main()
